@@ -292,7 +292,7 @@ fn run_plan(kind: Kind, plan: &Plan, rt: &tokio::runtime::Runtime, log: &Arc<Log
                     // a prefix of a valid response, then the connection closes
                     log.push(json!({"ev": "srv", "kind": "close", "id": 0, "tag": unread}));
                     let f = resp_frame(7, 7);
-                    let cut = [1usize, 47, 48, 51, f.len() - 1][r.gen_range(0..5)];
+                    let cut = [1usize, 47, 48, 49, 50, 51, f.len() - 1][r.gen_range(0..7)];
                     if let Srv::Tcp(s) = srv { let _ = s.write_all(&f[..cut]); }
                     srv.close(false);
                 }
@@ -310,6 +310,8 @@ fn run_plan(kind: Kind, plan: &Plan, rt: &tokio::runtime::Runtime, log: &Arc<Log
                 if *jpos == pos {
                     match *jk {
                         "unknown" => { log_s.push(json!({"ev": "srv", "kind": "resp", "id": 777_000 + pos as u64, "tag": 99})); srv.send(&resp_frame(777_000 + pos as u64, 99)); }
+                        // id 0: never issued either (the clients number their requests from 1)
+                        "unknown0" => { log_s.push(json!({"ev": "srv", "kind": "resp", "id": 0, "tag": 99})); srv.send(&resp_frame(0, 99)); }
                         "dup" => if let Some((id, _)) = answered.last().copied() { log_s.push(json!({"ev": "srv", "kind": "resp", "id": id, "tag": 99})); srv.send(&resp_frame(id, 99)); },
                         // a response carrying the id of one of the client's own notifies: nobody waits for it
                         "notify_id" => if let Some(id) = notify_ids.first().copied() { log_s.push(json!({"ev": "srv", "kind": "resp", "id": id, "tag": 99})); srv.send(&resp_frame(id, 99)); },
@@ -724,7 +726,7 @@ fn replay_one(kind: Kind, beh: &Value, rt: &tokio::runtime::Runtime) -> Result<u
                 while verif::passed("cm_fail_drained") == before { if t0.elapsed() > wait { return finish(client, Err(fail("the failing reader did not leave the probe after draining".into()))); } std::thread::sleep(Duration::from_micros(100)); }
             }
             "SrvReply" => { srv.send(&resp_frame(x, x)); }
-            "SrvJunk" => { if x == 0 { srv.send(&resp_frame(777_000 + i as u64, 99)); } else { srv.send(&resp_frame(x, 99)); } }
+            "SrvJunk" => { if x == 0 { srv.send(&resp_frame(if i % 2 == 0 { 0 } else { 777_000 + i as u64 }, 99)); } else { srv.send(&resp_frame(x, 99)); } }
             "Recv" if x == 1 => { if !verif::await_parked("cm_fail_start", 1, wait) { return finish(client, Err(fail("the reader did not start failing the connection after the fault".into()))); } }
             "Dispatch" if x == 1 => {}
             "Recv" => { if !verif::await_parked("cm_reader_read", 1, wait) { return finish(client, Err(fail("the reader did not take the next frame".into()))); } }
@@ -806,7 +808,7 @@ pub fn run(a: &Args) -> i32 {
     let base = |callers: usize| Plan { callers, read: callers, order: (0..callers).collect(), junk: vec![], fault: None, timeout_ms: None, late: vec![], cancel: vec![], batch: false, subscribe: true, wt_big: false, ser_fail: false, cancel_queued: false, notifies: 0, forward: None, collide: false, big_writer: false };
     if mode == "c04" {
         // every reply order for n callers, with one junk frame rotating through kinds and positions
-        let junk_kinds: Vec<&'static str> = if kind == Kind::Ws { vec!["none", "unknown", "dup", "notify"] } else { vec!["none", "unknown", "dup"] };
+        let junk_kinds: Vec<&'static str> = if kind == Kind::Ws { vec!["none", "unknown", "dup", "notify", "unknown0"] } else { vec!["none", "unknown", "dup", "unknown0"] };
         for (i, p) in permutations(n).into_iter().enumerate() {
             let mut pl = base(n);
             pl.order = p;
@@ -1044,7 +1046,9 @@ pub fn stray(a: &Args) -> i32 {
             let req = srv.read_req(Duration::from_secs(5));
             let mut outcome = ("noreq".to_string(), 0u64, 0u64, String::new());
             if let Some((id, _)) = req {
-                let mut b = Message::builder().id(777_000 + qi as u64).query_bytes(q.clone());
+                // ids nobody waits for: 0 (the client's own ids start at 1) and a large one, alternating
+                let stray_id = if qi % 2 == 0 { 0 } else { 777_000 + qi as u64 };
+                let mut b = Message::builder().id(stray_id).query_bytes(q.clone());
                 b = match flavour {
                     "resp_json" => b.body_json(&json!({"id": 0, "tag": 99})).unwrap(),
                     "resp_err_badmsg" => b.error_code(repe::ErrorCode::ApplicationErrorBase).body_bytes(q.clone()).body_format(repe::BodyFormat::Utf8),
@@ -1061,6 +1065,45 @@ pub fn stray(a: &Args) -> i32 {
             std::thread::sleep(Duration::from_millis(2));
             let panics = PANICS.load(Ordering::SeqCst) - before;
             cases.push(json!({"client": kind.name(), "query": qname, "query_len": q.len(), "flavour": flavour, "cls": outcome.0, "tag": outcome.2, "msg": outcome.3,
+                              "panics": panics, "panic_msg": if panics > 0 { LAST.lock().unwrap_or_else(|e| e.into_inner()).clone() } else { String::new() }}));
+            drop(client);
+        }
+    }
+    // a response cut at EVERY byte position (header, query, body), then the connection ends: the call in flight must
+    // return an error, and no reader may panic on the fragment
+    for kind in [Kind::Sync, Kind::Async, Kind::Ws] {
+        let probe = Message::builder().id(1).query_str("/a-query-of-20-bytes").body_json(&json!({"id": 1, "tag": 1, "pad": "0123456789"})).unwrap().build().to_vec();
+        for cut in 0..probe.len() {
+            let listener = TcpListener::bind("127.0.0.1:0").unwrap();
+            let addr = listener.local_addr().unwrap();
+            let acc = std::thread::spawn(move || Srv::accept(&listener, kind));
+            let client = match kind {
+                Kind::Sync => Client::connect(addr).map(AnyClient::Sync),
+                Kind::Async => rt.block_on(AsyncClient::connect(addr)).map(AnyClient::Async),
+                Kind::Ws => rt.block_on(WebSocketClient::connect(&format!("ws://{addr}"))).map(AnyClient::Ws),
+            };
+            let Ok(client) = client else { continue };
+            let Ok(mut srv) = acc.join() else { continue };
+            let before = PANICS.load(Ordering::SeqCst);
+            let (tx, rx) = std::sync::mpsc::channel();
+            let body = json!({"c": 1});
+            match &client {
+                AnyClient::Sync(c) => { let c = c.clone(); std::thread::spawn(move || { let _ = tx.send(classify(c.call_json_with_timeout("/c1", &body, Duration::from_secs(4)))); }); }
+                AnyClient::Async(c) => { let c = c.clone(); rt.spawn(async move { let _ = tx.send(classify(c.call_json_with_timeout("/c1", &body, Duration::from_secs(4)).await)); }); }
+                AnyClient::Ws(c) => { let c = c.clone(); rt.spawn(async move { let _ = tx.send(classify(c.call_json_with_timeout("/c1", &body, Duration::from_secs(4)).await)); }); }
+            }
+            let mut outcome = ("noreq".to_string(), 0u64, 0u64, String::new());
+            if let Some((id, _)) = srv.read_req(Duration::from_secs(5)) {
+                let mut f = probe.clone();
+                f[16..24].copy_from_slice(&id.to_le_bytes());
+                srv.send(&f[..cut]);
+                srv.close(false);
+                outcome = rx.recv_timeout(Duration::from_secs(6)).unwrap_or(("hang".to_string(), 0, 0, "the call did not return within 6 s".into()));
+            }
+            std::thread::sleep(Duration::from_millis(2));
+            let panics = PANICS.load(Ordering::SeqCst) - before;
+            // the expected class is "err": the connection ended with the response incomplete
+            cases.push(json!({"client": kind.name(), "query": format!("cut@{cut}"), "query_len": 20, "flavour": "truncated_response", "cls": if outcome.0 == "err" { "ok".to_string() } else { format!("not-an-error:{}", outcome.0) }, "tag": outcome.2, "msg": outcome.3,
                               "panics": panics, "panic_msg": if panics > 0 { LAST.lock().unwrap_or_else(|e| e.into_inner()).clone() } else { String::new() }}));
             drop(client);
         }
